@@ -19,10 +19,10 @@ import random as _random
 
 RULE_HARDEN = ("hardening: (L) for an orders case (named vertices, dead chips / links), two generators of "
                "breadth_first_vertex_order, rcm_vertex_order, rcm_chip_order, hilbert_chip_order advanced alternately 1-4 "
-               "items at a time, a twin abandoned half-way, eager calls in between; (S) per run 3 (thorough 8) large cases "
+               "items at a time, a twin abandoned half-way, eager calls in between; (S) per run 2 (thorough 8) large cases "
                "drawn from: 1xN / Nx1 / 2xN machine with N in 1000..3000 and 40 vertices, 257x2 machine, 65,537 unit "
-               "vertices on 257x3, 700 vertices with a 600-sink net, a chain of 400 (thorough 1100) same-chip constraints "
-               "that fits; (K) two PythonKernel / two CKernel objects driven alternately with 3-6 run_steps calls each")
+               "vertices on 257x3 (thorough tier), 700 vertices with a 600-sink net, a chain of 400 (thorough 1100) same-chip constraints "
+               "that fits, and on every run one chain of 300-1500 that fits NO chip (only InsufficientResourceError is accepted); one fixed case of the known finding sa-c-raises-OverflowError (SDRAM 2**31+5000 with the C kernel); (K) two PythonKernel / two CKernel objects driven alternately with 3-6 run_steps calls each")
 
 CLAIM_HARDEN = ("The generators returned by the order functions are also consumed lazily and alternately (results equal "
                 "to an eager call, and accepted by the Lean oracle when used for a placement); a few cases per run are far "
@@ -34,8 +34,9 @@ NOTE_HARDEN = (
     "HARDENING CHECKLIST - what is validated by which stream, and what is left out and why. "
     "(1) Argument kinds: vertex / resource identifiers of every hashable kind (c02_names, all streams); resource "
     "quantities up to 2**100 (variants: scale) for every placer except the C annealing kernel, an external binary "
-    "working on C ints (quantities >= 2**31 raise OverflowError inside rig_c_sa: outside /repo, reported, not generated "
-    "for that kernel); dict / OrderedDict / subclasses for vertices_resources and resource dictionaries, subclasses of "
+    "working on C ints (quantities >= 2**31 raise OverflowError from c_kernel.py: KNOWN FINDING "
+    "sa-c-raises-OverflowError, reproduced by one fixed case on every run; the random generators keep such quantities "
+    "away from that kernel so that any other failure of it is reported under its own key); dict / OrderedDict / subclasses for vertices_resources and resource dictionaries, subclasses of "
     "Machine, Net and the constraint classes, Net(source, single_sink), tuple for SameChipConstraint.vertices "
     "(variants: containers). NOT generated: nets / constraints as tuples or iterators (documented as lists: the placers "
     "copy them with [:] and assign items - a tuple raises TypeError in every placer); Net sinks other than a list are BY "
@@ -51,7 +52,9 @@ NOTE_HARDEN = (
     "(only prints a warning). "
     "(3) Scale: c02_harden (S); the Hilbert placer walks 4**ceil(log2(max(w, h))) points before it gives up, so 1xN "
     "machines with N in the thousands are run with placeable problems only (an unplaceable one takes minutes: slow, "
-    "not wrong); the Lean oracle is quadratic in the number of vertices, so the 65,537-vertex and the 1100-deep chain "
+    "not wrong); chains of 300-1500 same-chip constraints whose merged vertex fits no chip are run on every run (scale "
+    "stream and two problems of the main stream: only InsufficientResourceError is accepted - finding F24, fixed); the "
+    "Lean oracle is quadratic in the number of vertices, so the 65,537-vertex and the 1100-deep chain "
     "cases are judged on exceptions, non-return and the number of placed vertices only (tagged). "
     "(4) Histories: c02_sessions (same objects, repeated calls, two problems alternately, machines differing in one "
     "aspect in both orders, placer modules reloaded at the start of every history, replays carry the whole history and "
@@ -174,9 +177,16 @@ def run_lazy(ctx, h):
 # (S) scale
 # ---------------------------------------------------------------------------
 
-def gen_scale(rng, thorough):
-    kind = rng.choice(["row", "row", "wide257", "vertices65537", "sinks", "chain"])
+def gen_scale(rng, thorough, kind=None):
+    kind = kind or rng.choice(["row", "row", "wide257", "sinks", "chain", "chain-too-big"] +
+                              (["vertices65537"] if thorough else []))      # 65,537 vertices: thorough tier only
     seeds = [rng.randrange(2 ** 30) for _ in range(4)]
+    if kind == "chain-too-big":
+        # chained same-chip constraints whose merged vertex (depth + 1 units) fits no chip (depth units each): the only
+        # acceptable outcome is InsufficientResourceError (finding F24: RecursionError from the error message, fixed)
+        depth = rng.choice([300, 350, 500] + ([800, 1100, 1500] if thorough else []))
+        return {"harden": "scale", "kind": kind, "w": 2, "h": 2, "cap": depth, "n": depth + 1, "nets": "sparse",
+                "chain": depth, "dead": [], "seeds": seeds, "oracle": True}
     if kind == "row":
         N = rng.choice([1000, 2048, 2049, 3000])
         w, h = rng.choice([(1, N), (N, 1), (2, N), (N, 2)])
@@ -191,9 +201,7 @@ def gen_scale(rng, thorough):
     if kind == "sinks":
         return {"harden": "scale", "kind": kind, "w": 3, "h": 3, "cap": 100, "n": 700, "nets": "fan", "chain": 0, "dead": [],
                 "seeds": seeds, "oracle": True}
-    # chained same-chip constraints (v0,v1), (v1,v2), ...: merged vertices nest that deep.  The chain FITS on a chip:
-    # a chain that does not fit makes every placer raise RecursionError when it formats its error message
-    # (reported finding, fixes/c02-mergedvertex-repr-recursion.diff) - kept out of the generator
+    # chained same-chip constraints (v0,v1), (v1,v2), ...: merged vertices nest that deep; this chain fits on a chip
     depth = 1100 if thorough else 400
     return {"harden": "scale", "kind": kind, "w": 2, "h": 2, "cap": depth + 1, "n": depth + 1, "nets": "sparse",
             "chain": depth, "dead": [], "seeds": seeds, "oracle": depth <= 400}
@@ -236,7 +244,10 @@ def run_scale(ctx, h):
         ctx.traces += 1
         case = dict(desc, placer=name)
         ctx.tag("scale:%s:%s:%s" % (h["kind"], name, "placed" if "ok" in out else out["err"]))
-        if "ok" in out:
+        if "ok" in out and h["kind"] == "chain-too-big":
+            ctx.violation("infeasible-placement-" + name, "%s returned a placement for %d vertices chained by same-chip "
+                          "constraints on chips that hold %d" % (name, h["n"], h["cap"]), case)
+        elif "ok" in out:
             if len(out["ok"]) != h["n"]:
                 ctx.violation("infeasible-placement-" + name, "%s returned %d placements for %d vertices" % (
                     name, len(out["ok"]), h["n"]), case)
@@ -324,15 +335,69 @@ def run_two_kernels(ctx, h):
 
 # ---------------------------------------------------------------------------
 
+# ---------------------------------------------------------------------------
+# known finding: the C kernel stores resource quantities in C ints
+# ---------------------------------------------------------------------------
+
+C_OVERFLOW = {"harden": "c-overflow", "w": 2, "h": 2, "cores": 4, "sdram": 2 ** 31 + 5000, "n": 4, "vertex_sdram": 1000}
+
+
+def run_c_overflow(ctx, h=C_OVERFLOW):
+    """ONE fixed small feasible problem whose chips have 2**31 + 5000 units of SDRAM, placed by sa.place with the C
+    kernel (KNOWN_FINDINGS sa-c-raises-OverflowError; the random generators keep such quantities away from the C
+    kernel so that any other failure of it is reported under its own key)"""
+    import collections
+    from harness import c02
+    try:
+        from rig.place_and_route.place.sa.c_kernel import CKernel
+    except ImportError:
+        ctx.tag("c-overflow:CKernel-not-importable")
+        return
+    from rig.place_and_route import Machine, Cores, SDRAM
+    from rig.netlist import Net
+    from rig.place_and_route.place.sa import algorithm as sa_alg
+    n = h["n"]
+    vr = collections.OrderedDict((v, {Cores: 1, SDRAM: h["vertex_sdram"]}) for v in range(n))
+    nets = [Net(v, [(v + 1) % n]) for v in range(n)]
+    machine = Machine(h["w"], h["h"], chip_resources={Cores: h["cores"], SDRAM: h["sdram"]})
+    out = c02.outcome(lambda: sa_alg.place(vr, nets, machine, [], effort=0.1, random=_random.Random(1), kernel=CKernel), 30)
+    ctx.traces += 1
+    desc = dict(h)
+    ctx.tag("c-overflow:%s" % ("placed" if "ok" in out else out["err"]))
+    what_in = ("sa.place(kernel=CKernel) on %d vertices {Cores: 1, SDRAM: %d} in a ring of nets, Machine(%d, %d, "
+               "chip_resources={Cores: %d, SDRAM: 2**31 + %d}), no constraints" % (
+                   n, h["vertex_sdram"], h["w"], h["h"], h["cores"], h["sdram"] - 2 ** 31))
+    if "ok" in out:
+        enc = c02.enc_placement(out["ok"])
+        lp = {"suite": "c02", "op": "valid", "w": h["w"], "h": h["h"], "res": [h["cores"], h["sdram"]], "exc": [], "dead": [],
+              "vr": [[v, [1, h["vertex_sdram"]]] for v in range(n)], "cs": [], "p": enc}
+        rep = ctx.lean([lp])[0] if enc is not None else {}
+        if not rep.get("valid"):
+            ctx.violation("infeasible-placement-sa-c", "%s returned an infeasible placement (%s)" % (what_in, rep.get("why")), desc)
+    elif out["err"] == "DidNotReturn":
+        ctx.mismatch("c02.did-not-return", "%s: %s" % (what_in, out.get("msg")), desc)
+    else:
+        # the problem is feasible: a documented error would be wrong as well, but is not what this case is about
+        if out["err"] in DOCUMENTED:
+            ctx.tag("c-overflow:documented-error-on-a-feasible-problem")
+        else:
+            ctx.violation("sa-c-raises-%s" % out["err"], "%s raised %s (%s); only InsufficientResourceError and "
+                          "InvalidConstraintError are documented (the C kernel stores resource quantities in C ints)" % (
+                              what_in, out["err"], out.get("msg")), desc)
+    ctx.case(desc, True)
+
+
 def run_one(ctx, h):
     from harness import c02_sessions
     c02_sessions.reload_rig()
+    if h["harden"] == "c-overflow":
+        return run_c_overflow(ctx, h)
     {"lazy": run_lazy, "scale": run_scale, "two-kernels": run_two_kernels}[h["harden"]](ctx, h)
 
 
 def run_harden(ctx):
     rng = ctx.rng
-    n_lazy, n_scale, n_k = ctx.scale(60, 400), ctx.scale(3, 8), ctx.scale(20, 100)
+    n_lazy, n_scale, n_k = ctx.scale(40, 400), ctx.scale(2, 8), ctx.scale(12, 100)
     if ctx.extended:
         n_lazy, n_k = n_lazy * 4, n_k * 4
     for _ in range(n_lazy):
@@ -341,6 +406,8 @@ def run_harden(ctx):
         run_one(ctx, gen_two_kernels(rng))
     for _ in range(n_scale):
         run_one(ctx, gen_scale(rng, not ctx.quick))
+    run_one(ctx, gen_scale(rng, not ctx.quick, "chain-too-big"))        # on every run
+    run_c_overflow(ctx)
 
 
 def replay_harden(ctx, payload):
